@@ -294,6 +294,51 @@ pub fn scenarios() -> Vec<Scn> {
       }),
     ]
   }));
+  // feedback through the scheduler-based operators: the callback of the first item, running on
+  // the operator's worker thread, emits into / completes the subject that feeds the operator
+  for op in ["observe_on", "debounce", "timeout", "sample"] {
+    for terminal in [false, true] {
+      let name = format!("c07/Subject.{}: the callback of the first item calls {} on the subject, then unsubscribe", op, if terminal { "complete" } else { "next" });
+      v.push(conc_scn(&name, Some(1), Some(2), move |rec| {
+        let sbj = subjects::Subject::<i64>::new();
+        let o = match op {
+          "observe_on" => sbj.observable().observe_on(nt()),
+          "debounce" => sbj.observable().debounce(ms(5), nt()),
+          "delay" => sbj.observable().delay(ms(5)),
+          "timeout" => sbj.observable().timeout(ms(50), nt()),
+          _ => sbj.observable().sample(observables::interval(ms(5), nt())),
+        };
+        let (r_n, r_e, r_c) = (rec.clone(), rec.clone(), rec.clone());
+        let sbj_cb = sbj.clone();
+        let fired = Arc::new(Mutex::new(false));
+        let sub = o.subscribe(
+          move |x: i64| {
+            r_n.cb(EvK::Next(x));
+            let first = {
+              let mut f = fired.lock().unwrap();
+              let was = *f;
+              *f = true;
+              !was
+            };
+            if first {
+              if terminal {
+                sbj_cb.complete()
+              } else {
+                sbj_cb.next(x + 10)
+              }
+            }
+          },
+          move |e| r_e.cb(EvK::Error(err_code(&e))),
+          move || r_c.cb(EvK::Complete),
+        );
+        vec![Box::new(move || {
+          sbj.next(1);
+          thread::sleep(ms(30));
+          sub.unsubscribe();
+        }) as Th]
+      }));
+    }
+  }
   v
 }
 
